@@ -201,7 +201,9 @@ func credentialIsSecure(credential string) error {
 
 	// Parse the credential as a JWS (JSON Web Signature) containing a message. This works
 	// because a JWT (JSON Web Token) is built on a JWS where the claims are a signed message.
-	message, err := jws.ParseString(credential)
+	// Only the compact serialization is accepted (a JWT always is): given the JSON serialization, jwt.ParseString verifies the
+	// signature but can take the claims from unsigned members of the JSON object.
+	message, err := jws.Parse([]byte(credential), jws.WithCompact())
 	if err != nil {
 		return fmt.Errorf("cannot parse credential: jws.ParseString: %w", err)
 	}
